@@ -302,9 +302,25 @@ RECENT = collections.deque(maxlen=6)
 # into ``case.keep``) stay referenced while their successors run: predecessors one to three
 # steps back are alive, older ones have been collected - both situations occur for every case.
 ALIVE = collections.deque(maxlen=3)
+# Every shard this worker process has started, in order.  Process-global state of the library
+# (module-level caches, class registries) may reach further back than RECENT; a violation that
+# does not reproduce from its recent predecessors is replayed from the start of its worker.
+WORKER_SHARDS = []
 
 
 VARIANT_CELLS = 9     # tables up to this many cells are also explored through the variants
+
+
+def track(case, vs, tier):
+    """Attach the process history to the violations of a case and register the case as a
+    predecessor of what follows (also used by the per-property extra loops)."""
+    for v in vs:
+        if isinstance(v.get('case'), dict):
+            v['case'].setdefault('after', [dict(x) for x in RECENT])
+            v['case'].setdefault('worker', {'tier': tier,
+                                            'shards': [list(x) for x in WORKER_SHARDS]})
+    RECENT.append({'tag': list(case.tag), 'labeling': case.labeling, 'variant': case.variant})
+    ALIVE.append(case)
 
 
 def run_shard_generic(shard, tier, prop, check_case, both_labelings=True,
@@ -314,6 +330,8 @@ def run_shard_generic(shard, tier, prop, check_case, both_labelings=True,
     viols = []
     samples = []
     outcomes = set()
+    if not WORKER_SHARDS or WORKER_SHARDS[-1] != shard:
+        WORKER_SHARDS.append(shard)
     for n, m, rows, tag in space.tables_of_shard(shard):
         first = True
         runs = [(labeling, 'fresh') for labeling in labelings_for(tag, both_labelings)]
@@ -346,11 +364,7 @@ def run_shard_generic(shard, tier, prop, check_case, both_labelings=True,
             except Exception as e:
                 vs = [common.library_exception(prop, case.ident(), e)]
             ctr['evaluations'] += 1
-            for v in vs:
-                v['case']['after'] = [dict(x) for x in RECENT]
-            RECENT.append({'tag': list(case.tag), 'labeling': case.labeling,
-                           'variant': case.variant})
-            ALIVE.append(case)
+            track(case, vs, tier)
             if first:
                 first = False
                 ctr['tables'] += 1
@@ -382,6 +396,25 @@ def main_e1(mod, tier):
     if hasattr(mod, 'post'):
         mod.post(res, tier)
     return common.finish(res, tier, mod.LEVEL, mod.RULE, mod.ASSUMPTIONS, t0)
+
+
+def _tup(x):
+    return tuple(_tup(y) for y in x) if isinstance(x, list) else x
+
+
+def replay_worker(mod, v):
+    """Second stage of a replay: re-execute everything the worker process had done before the
+    recorded case - all its earlier shards and the shard of the case - in this fresh process,
+    and return the violations found for the same table (same tag, labeling and variant)."""
+    w = v['case']['worker']
+    RECENT.clear(); ALIVE.clear(); del WORKER_SHARDS[:]
+    key = (v['case'].get('tag'), v['case'].get('labeling'), v['case'].get('variant'))
+    found = []
+    for shard in w['shards']:
+        res = mod.run_shard(_tup(shard), w['tier'])
+        found = [x for x in res.get('violations', ())
+                 if (x['case'].get('tag'), x['case'].get('labeling'), x['case'].get('variant')) == key]
+    return found
 
 
 def replay_e1(mod, v):
